@@ -403,6 +403,72 @@ MALFORMED = [
 ]
 
 
+def charbits_program():
+    """Hexadecimal and binary literals in a char8 context (the typer gives an untyped bit literal the contextual type, char8
+    included): a value above 255 does not fit and must raise L1142 on its line, a value that fits is that byte."""
+    vals = [0, 1, 0x41, 0x7f, 0x80, 0xff, 0x100, 0x141, 0x1ff, 0xffff, 0x10041, 2 ** 32 + 0x41, 2 ** 64 + 0x41, 2 ** 128 - 1]
+    lines = ["fn show(c: char8)", "{", "\tprint!(c as u8, \"\\n\");", "}", "fn shows(s: []char8)", "{", "\tprint!(s[1] as u8, \"\\n\");", "}",
+             "fn main() -> i32", "{", "\tvar t: char8 = 'a';"]
+    meta = []
+    for v in vals:
+        for lit in ("0x%x" % v, "0x%X" % v, "0b" + bin(v)[2:], "0x00%x" % v):
+            for ctx in ("decl", "assign", "arg", "array", "array_arg"):
+                i = len(meta)
+                if ctx == "decl":
+                    lines.append("\tvar c%d: char8 = %s; show(c%d);" % (i, lit, i))
+                elif ctx == "assign":
+                    lines.append("\tt = %s; show(t);" % lit)
+                elif ctx == "arg":
+                    lines.append("\tshow(%s);" % lit)
+                elif ctx == "array":
+                    lines.append("\tvar a%d: [2]char8 = [0x48, %s]; show(a%d[1]);" % (i, lit, i))
+                else:
+                    lines.append("\tshows([0x48, %s]);" % lit)
+                meta.append({"value": v, "literal": lit, "context": ctx, "line": len(lines)})
+    lines += ["\treturn: 0", "}"]
+    return "\n".join(lines) + "\n", meta
+
+
+def check_charbits():
+    src, meta = charbits_program()
+    k, r = compile_src(src)
+    replay = {"source": src}
+    cov = {"char8_bit_literals": len(meta)}
+    if k != "resp":
+        sig = r.signature() if k == "crash" else common.panic_signature(r)
+        return [{"verdict": VIOLATED, "sig": "bit literals as char8: " + sig, "detail": str(r)[:300], "replay": replay, "cov": cov}]
+    if r["status"] != "ok":
+        codes = sorted(set(e["code"] for e in r.get("errors", [])))
+        return [{"verdict": VIOLATED, "sig": "bit literal in a char8 context rejected with %s" % codes, "detail": r.get("errors", [])[:3],
+                 "replay": replay, "cov": cov}]
+    lint_lines = set(l["line"] for l in r.get("lints", []) if l["code"] == 1142)
+    res = common.run_lli(r["ir"], timeout=60)
+    if res["status"] != "ok":
+        return [{"verdict": INCONCLUSIVE, "detail": "lli " + res["status"]}]
+    outs = res["stdout"].decode("latin-1").split("\n")
+    results = []
+    for i, m in enumerate(meta):
+        got = outs[i] if i < len(outs) else None
+        linted = m["line"] in lint_lines
+        rp = {"source": src, "literal": m, "observed": got, "L1142": linted}
+        cls = "char8 %s in %s" % ("binary" if m["literal"].startswith("0b") else "hex", m["context"])
+        if m["value"] <= 255:
+            if got != str(m["value"]):
+                results.append({"verdict": VIOLATED, "sig": "literal denotes a different value at run time (%s)" % cls,
+                                "detail": {"literal": m["literal"], "expected": m["value"], "observed": got}, "replay": rp})
+            elif linted:
+                results.append({"verdict": VIOLATED, "sig": "in-range literal raises L1142 (%s)" % cls, "detail": m, "replay": rp})
+            else:
+                results.append({"verdict": HELD, "nt": "charbits:in:%s:%d" % (m["context"], m["value"].bit_length())})
+        elif not linted:
+            results.append({"verdict": VIOLATED, "sig": "out-of-range literal silently altered, no L1142 (%s)" % cls,
+                            "detail": {"literal": m["literal"], "observed": got}, "replay": rp})
+        else:
+            results.append({"verdict": HELD, "nt": "charbits:out:%s:%d" % (m["context"], m["value"].bit_length())})
+    results[0]["cov"] = cov
+    return results
+
+
 def run_case(case):
     kind = case[0]
     if kind == "ints":
@@ -410,6 +476,8 @@ def run_case(case):
         rng = common.rng_for(seed, PROP, "ints", idx)
         src, meta = int_program(rng, cells)
         return check_int_program(src, meta)
+    if kind == "charbits":
+        return check_charbits()
     if kind == "chars":
         rng = common.rng_for(case[1], PROP, "chars")
         src, meta = char_program(rng)
@@ -526,6 +594,7 @@ def main(tier, seed, replay=None):
     for i in range(0, len(small), per):
         cases.append(("ints", seed, i, small[i:i + per]))
     cases.append(("chars", seed))
+    cases.append(("charbits",))
     nstr = 10 if tier == "quick" else 60
     for i in range(nstr):
         cases.append(("strings", seed, i, 25))
